@@ -212,6 +212,14 @@ func arrayExecJoin(ar *Array, values []r.Element) (r.Element, error) {
 	}
 
 	connector := values[0].(*String).value
+	// (strings.Join sizes its result up front: refuse what cannot be held)
+	total := int64(len(connector)) * int64(len(strArr)-1)
+	for _, item := range strArr {
+		total += int64(len(item))
+	}
+	if err := checkTextSize(total); err != nil {
+		return nil, err
+	}
 	finalStr := strings.Join(strArr, connector)
 
 	return NewString(finalStr), nil
